@@ -508,6 +508,9 @@ func callSSA(i *interpreter, caller *frame, callpos token.Pos, fn *ssa.Function,
 			return nil
 		}
 		if ext := externals[name]; ext != nil {
+			if strings.HasPrefix(name, "(reflect.") || strings.HasPrefix(name, "reflect.") {
+				return callReflectExt(fr, name, ext, args)
+			}
 			return ext(fr, args)
 		}
 		if fn.Pkg != nil {
@@ -593,6 +596,21 @@ func isZeroSize(t types.Type) bool {
 		return u.Len() == 0 || isZeroSize(u.Elem())
 	}
 	return false
+}
+
+// callReflectExt runs a reflect emulation; applying a Value method to the
+// wrong kind is a panic of the real reflect package (a *ValueError), i.e. a
+// program-level panic, not an engine failure.
+func callReflectExt(fr *frame, name string, ext externalFn, args []value) (res value) {
+	defer func() {
+		if r := recover(); r != nil {
+			if _, ok := r.(runtime.Error); ok {
+				panic(targetPanic{iface{fr.i.runtimeErrorString, "reflect: call of " + name + " on a Value of the wrong kind"}})
+			}
+			panic(r)
+		}
+	}()
+	return ext(fr, args)
 }
 
 // isEngineAbort reports whether a recovered panic value belongs to the
